@@ -11,6 +11,7 @@ Transcribed from the C++ (no Mathlib; everything computable, the compiled `drive
   (names, `_N` placeholders, the generated `{spec}<SEP>{spec}…` string, the `find(delimiter, start)` split loop);
 * `sanitize`           — `sanitize_non_printable_chars` with the default `check_printable_char`;
 * `removeNewlines`, `jsonLine` — `detail::JsonSink::write_log` / `generate_json_message` (sinks/JsonSink.h);
+* `jsonWrite`, `runJson` — the sink's `_json_message` buffer across statements, with throwing customisation points;
 * `lookupOrInsert`     — the `_named_args_templates` cache (`find`, else `try_emplace(process(..))`).
 
 Strings are `List Char` (one `Char` per byte). Loops carry a fuel argument that is initialised with a bound
@@ -441,6 +442,84 @@ def jsonArgsOpt : Option (List (Str × Str)) → Str
 /-- the bytes handed to the stream: header, pairs (if the pointer is non-null), `}\n` -/
 def jsonLine (layout : List (Str × HdrField)) (h : Hdr) (tmpl : Str) (pairs : Option (List (Str × Str))) : Str :=
   jsonHeader layout h (removeNewlines tmpl) ++ jsonArgsOpt pairs ++ ['}', '\n']
+
+/-! ### the sink's line buffer across statements (`_json_message`), with throwing customisation points
+
+`JsonSink::write_log` = `_json_message.clear()`; the virtual `generate_json_message(…)` (appends the record; a
+documented customisation point — a user override may throw after part of the record was appended);
+`_json_message.append("}\n")`; base `write_log` with the buffer (`before_write` hook, `fwrite`; may throw). An
+exception leaves `write_log` at that point; the backend reports it through the error notifier and goes on with the
+next statement. The buffer is a member: it survives from one statement to the next. -/
+
+/-- what `generate_json_message` appends for one statement: the line without its closing `}\n` -/
+def jsonRecord (layout : List (Str × HdrField)) (h : Hdr) (tmpl : Str) (pairs : Option (List (Str × Str))) : Str :=
+  jsonHeader layout h (removeNewlines tmpl) ++ jsonArgsOpt pairs
+
+/-- where the write of a statement fails -/
+inductive JFault where
+  | none
+  /-- `generate_json_message` throws after `k` bytes of the record were appended (`k ≥` its length: after all of it) -/
+  | generate (k : Nat)
+  /-- the base `write_log` throws (`before_write` hook, `fwrite`) before anything reached the stream -/
+  | write
+deriving DecidableEq, Repr
+
+/-- where `write_log` empties the buffer (extracted): before `generate_json_message` (the code) and/or after the
+    base write (the variant that "leaves the buffer empty once its content has been handed over") -/
+structure JSinkParams where
+  clearBefore : Bool := true
+  clearAfter : Bool := false
+deriving DecidableEq, Repr
+
+structure JSink where
+  /-- `_json_message` -/
+  buf : Str := []
+  /-- the bytes handed to the stream so far -/
+  file : Str := []
+  /-- exceptions that left `write_log` (one error-notifier report each) -/
+  reports : Nat := 0
+deriving DecidableEq, Repr
+
+def JSink.clear (s : JSink) : JSink := { s with buf := [] }
+
+/-- `generate_json_message`: appends the record — or, throwing (`true`), only its first `k` bytes -/
+def JSink.generate (s : JSink) (record : Str) : JFault → JSink × Bool
+  | .generate k => ({ s with buf := s.buf ++ record.take k }, true)
+  | _ => ({ s with buf := s.buf ++ record }, false)
+
+/-- base `write_log` with the buffer: the bytes reach the stream, or it throws (`true`) and nothing does -/
+def JSink.write (s : JSink) : JFault → JSink × Bool
+  | .write => (s, true)
+  | _ => ({ s with file := s.file ++ s.buf }, false)
+
+def JSink.report (s : JSink) : JSink := { s with reports := s.reports + 1 }
+
+/-- `JsonSink::write_log` for one statement: (clear;) generate; append `}\n`; write (; clear) -/
+def jsonWrite (p : JSinkParams) (s : JSink) (record : Str) (f : JFault) : JSink :=
+  let s1 := if p.clearBefore then s.clear else s
+  let g := s1.generate record f
+  if g.2 then g.1.report
+  else
+    let s3 : JSink := { g.1 with buf := g.1.buf ++ ['}', '\n'] }
+    let w := s3.write f
+    if w.2 then w.1.report
+    else if p.clearAfter then w.1.clear else w.1
+
+/-- a sequence of (record, fault) through one sink -/
+def runRecords (p : JSinkParams) (s : JSink) : List (Str × JFault) → JSink
+  | [] => s
+  | rf :: rest => runRecords p (jsonWrite p s rf.1 rf.2) rest
+
+/-- a statement as the JSON sink sees it, with the fault scheduled for it -/
+structure JStmt where
+  h : Hdr
+  tmpl : Str
+  pairs : Option (List (Str × Str))
+  fault : JFault := .none
+deriving Repr
+
+def runJson (layout : List (Str × HdrField)) (p : JSinkParams) (s : JSink) (stmts : List JStmt) : JSink :=
+  runRecords p s (stmts.map (fun st => (jsonRecord layout st.h st.tmpl st.pairs, st.fault)))
 
 /-! ## one statement through the backend (what a sink observes) -/
 
